@@ -89,8 +89,12 @@ def case(draw):
             op = draw(st.sampled_from(["finalize", "setup"]))
         else:
             op = draw(st.sampled_from(["iterate", "iterate", "iterate_n", "iterate_n", "run_loop", "sample", "progress", "complete",
-                                       "output", "output", "finalize", "setup"]))
-        if op == "iterate_n":
+                                       "output", "output", "finalize", "setup", "output-sample-output"]))
+        if op == "output-sample-output":
+            # results are read, a record is added by hand, results are read again (no iteration in between): the
+            # second read needs larger buffers than the first
+            calls.extend([["output", "E"], ["sample", "E"], ["output", "E"]])
+        elif op == "iterate_n":
             calls.append(["iterate_n", "E", draw(st.integers(0, 40))])
         elif op == "setup":
             calls.append(["setup", "E", draw(st.integers(0, len(scripts) - 1))])
